@@ -383,6 +383,22 @@ RegenObs ==
            (Ev.exitR = 0 /\ ~Ev.callsRemain) => ~Ev.existsR>> }))
   /\ UNCHANGED <<run, tabs, reserved, plugins, flags, stack, genf, cur, lastAdd, files, pass>>
 
+\* DetObs / CtxObs are written by the harness (C08): the same sources and flags were run n times
+\* (DetObs), or once per way of addressing / grouping the package on the command line (CtxObs);
+\* outcomes are the distinct (exit status, sha256 of derived.gen.go) pairs observed.
+DetObs ==
+  /\ IsEvent("DetObs")
+  /\ Fail(Checks({
+       <<"DetObs: repeated runs on the same sources and flags disagree (C08)", Len(Ev.outcomes) = 1>> }))
+  /\ UNCHANGED <<run, tabs, reserved, plugins, flags, stack, genf, cur, lastAdd, files, pass>>
+
+CtxObs ==
+  /\ IsEvent("CtxObs")
+  /\ Fail(Checks({
+       <<"CtxObs: output depends on how the package is addressed or which other packages are named (C08)",
+           Len(Ev.outcomes) = 1>> }))
+  /\ UNCHANGED <<run, tabs, reserved, plugins, flags, stack, genf, cur, lastAdd, files, pass>>
+
 \* events that carry no obligation at this layer
 Other ==
   /\ l <= N
@@ -394,7 +410,7 @@ Next ==
   \/ RunStart \/ PkgStart \/ Call \/ Dispatch \/ NoPlugin
   \/ SetFuncName \/ SetFuncNameRet \/ SetFuncNameAuto \/ GetFuncName \/ NewName \/ GetFuncNameRet
   \/ AddRet \/ Rename \/ Rewrite \/ GenStart \/ Generating \/ GenEnd
-  \/ PassEnd \/ PrintFile \/ DeleteFile \/ Reload \/ PkgExit \/ RunEnd \/ FileObs \/ PrefixObs \/ RegenObs \/ Other
+  \/ PassEnd \/ PrintFile \/ DeleteFile \/ Reload \/ PkgExit \/ RunEnd \/ FileObs \/ PrefixObs \/ RegenObs \/ DetObs \/ CtxObs \/ Other
 
 Spec == Init /\ [][Next]_vars
 
